@@ -333,6 +333,24 @@ inline double guard_value<double>(int i)
 {
     return (i & 1) ? 1.0 : 2.0;
 }
+template <>
+inline unsigned guard_value<unsigned>(int i)
+{
+    return (i & 1) ? 4294967295u : 1u;
+}
+template <>
+inline unsigned long long guard_value<unsigned long long>(int i)
+{
+    return (i & 1) ? ~0ull : 1ull;
+}
+template <>
+inline unsigned short guard_value<unsigned short>(int i)
+{
+    return (unsigned short)((i & 1) ? 65535 : 1);
+}
+inline bool same_obj(unsigned a, unsigned b) { return a == b; }
+inline bool same_obj(unsigned long long a, unsigned long long b) { return a == b; }
+inline bool same_obj(unsigned short a, unsigned short b) { return a == b; }
 inline bool same_obj(double a, double b) { return std::memcmp(&a, &b, sizeof a) == 0; }
 inline bool same_obj(signed char a, signed char b) { return a == b; }
 inline bool same_obj(char a, char b) { return a == b; }
@@ -619,6 +637,21 @@ template <>
 inline unsigned char fresh_value<unsigned char>()
 {
     return 250;
+}
+template <>
+inline unsigned fresh_value<unsigned>()
+{
+    return 777777u;
+}
+template <>
+inline unsigned long long fresh_value<unsigned long long>()
+{
+    return 777777777ull;
+}
+template <>
+inline unsigned short fresh_value<unsigned short>()
+{
+    return 7777;
 }
 template <>
 inline double fresh_value<double>()
